@@ -95,6 +95,50 @@ def diverges(node):
     return False
 
 
+def sticky_error_ok(fn, call, pm):
+    """match f(..) { Ok(()) => {}, Err(X) => flag = true, Err(e) => return Err(e) } ... if flag { Err(X) } else { Ok(()) }:
+    every Err arm either returns Err or sets a flag, and every exit of the function that yields Ok is under `!flag`."""
+    m = pm.get(id(call))
+    if m is None or m.get('k') != 'Match' or m.get('e') is not call:
+        return False, ''
+    flags = set()
+    for arm in m['arms']:
+        p = pp(arm['pat'])
+        if not p.startswith('Err('):
+            continue
+        rets = [r for r in walk(arm['body']) if r.get('k') == 'Ret']
+        if rets and all(r.get('e', {}).get('k') == 'Call' and (r['e'].get('def') or '').endswith('Result::Err') for r in rets):
+            continue
+        asg = [a for a in walk(arm['body']) if a.get('k') == 'Assign' and H.lit_value(a['r']) is True and H.strip_refs(a['l']).get('k') == 'Path']
+        body = arm['body']
+        direct = body if body.get('k') == 'Assign' else (body.get('e') if body.get('k') == 'Block' and not body.get('stmts') else (body['stmts'][0].get('e') if body.get('k') == 'Block' and len(body.get('stmts', [])) == 1 and 'e' not in body else None))
+        if len(asg) == 1 and direct is asg[0]:
+            flags.add(asg[0]['l'].get('hid') or (H.root_local(asg[0]['l']) or {}).get('hid'))
+            continue
+        return False, ''
+    if len(flags) != 1:
+        return False, ''
+    flag = next(iter(flags))
+    # the flag is never reset and every Ok exit is in the else of `if flag`
+    resets = [a for a in walk(fn['body']) if a.get('k') == 'Assign' and (H.root_local(a['l']) or {}).get('hid') == flag and H.lit_value(a['r']) is not True]
+    if resets:
+        return False, ''
+    oks = [v for v in H.return_exprs(fn['body']) if v.get('k') == 'Call' and (v.get('def') or '').endswith('Result::Ok')]
+    for v in oks:
+        if not H.source_before(m, v):
+            continue   # exits before the loop are unrelated
+        guarded = False
+        prev = v
+        for a in H.ancestors(fn, v):
+            if a.get('k') == 'If' and H.strip_refs(a['c']).get('k') == 'Path' and H.strip_refs(a['c']).get('hid') == flag and any(x is prev for x in [a.get('els')]):
+                errs = [x for x in H.value_exprs(a['then']) if x.get('k') == 'Call' and (x.get('def') or '').endswith('Result::Err')]
+                guarded = bool(errs)
+            prev = a
+        if not guarded:
+            return False, ''
+    return bool(oks), 'every Err of generate_ui_file(..) either returns at once or sets a flag that is never cleared; Ok(()) is returned only when the flag is unset (remaining sources are still processed)'
+
+
 def run(ck):
     F = ck.facts
     L = F.lib
@@ -406,8 +450,11 @@ def run(ck):
     calls = [c for c in H.calls_in(gu['body']) if H.is_call_to(c, 'generate_ui_file')]
     pm = H.parents(gu)
     ok = len(calls) == 1 and pm.get(id(calls[0]), {}).get('k') == 'Try'
+    how = 'generate_ui_file(..)? : a diagnosed source makes generate_ui return Err (exit status 1)'
+    if not ok and len(calls) == 1:
+        ok, how = sticky_error_ok(gu, calls[0], pm)
     ck.ob('R4.4', 'per-source-error-propagates', ok, B.loc(calls[0]) if calls else '',
-          'generate_ui_file(..)? : a diagnosed source makes generate_ui return Err (exit status 1)' if ok else
+          how if ok else
           'the result of generate_ui_file(..) is not propagated with `?`: a later source can mask an earlier error and the command can exit 0')
     # the error kind reaches main's exit(1): dispatch returns the Result unchanged
     ds = B.fn('dispatch')
